@@ -30,7 +30,7 @@ def sec_findings():
         if key in seen:
             continue
         seen.add(key)
-        st = f"fixed in `{f['commit']}`" if f['kind'] == 'fixed' else "known finding"
+        st = f"fixed in `{f.get('commit', '?')}`" if f['kind'] == 'fixed' else "known finding"
         what = f['what'].replace('|', '\\|').replace('\n', ' ')
         if len(what) > 330:
             what = what[:327] + '...'
